@@ -30,7 +30,29 @@ def extract_label_exprs(src):
                     txt = ast.unparse(n)
                     m = re.fullmatch(r"(\w+)\[:\s*\(?7 - len\(str\((\w+)\)\)\)?\] \+ '_' \+ str\((\w+)\)", txt)
                     if m and m.group(2) == m.group(3): found.append((m.group(1), m.group(2), txt))
+                    elif m: MIXED.append((m.group(1), m.group(2), m.group(3), txt))
     return found
+
+MIXED = []      # label-shaped expressions of op.tofile whose truncation index and suffix index are different names
+
+def mixed_label_obligation(tmo_s=20):
+    """a section that builds its label as name[:7-len(str(a))] + '_' + str(b) writes a label that differs from the one every
+    other section uses for (name, b) for some name and indices - decided with z3 strings; indices <= 12 so that the witness
+    can be replayed with a small problem"""
+    import z3
+    def digits(i, s_):
+        return z3.And(i >= 0, i <= 12, z3.InRe(s_, z3.Union(z3.Re('0'), z3.Concat(z3.Range('1', '9'), z3.Star(z3.Range('0', '9'))))), z3.StrToInt(s_) == i, z3.Length(s_) <= 2)
+    def label(name, si_trunc, si):
+        k = 7 - z3.Length(si_trunc)
+        return z3.Concat(z3.SubString(name, 0, z3.If(k < z3.Length(name), k, z3.Length(name))), z3.StringVal('_'), si)
+    n1, sa, sb = z3.String('n1'), z3.String('sa'), z3.String('sb'); a, b = z3.Int('a'), z3.Int('b')
+    sol = z3.Solver(); sol.set('timeout', tmo_s*1000)
+    sol.add(digits(a, sa), digits(b, sb), z3.Length(n1) >= 1, z3.Length(n1) <= 8, z3.InRe(n1, z3.Plus(z3.Range('a', 'z'))), label(n1, sa, sb) != label(n1, sb, sb))
+    r = sol.check()
+    if r == z3.sat:
+        mm = sol.model()
+        return str(r), {'n1': mm.eval(n1, True).as_string(), 'a': mm.eval(a, True).as_long(), 'b': mm.eval(b, True).as_long()}
+    return str(r), None
 
 def label_obligations(tmo_s=20):
     """z3 string obligations.  Returns list of (label, verdict, model)"""
@@ -388,6 +410,27 @@ def replay(d):
             if len(q.variables()) != len(a) + len(b):
                 return {'violated': ['distinct variable names %r, %r: %d variables written, %d read back' % (n1, n2, len(a) + len(b), len(q.variables()))]}
             return {'violated': []}
+        if d['kind'] == 'labels-mixed':
+            # K constraints of L rows each over one variable; the constraint at position a and the one at position b carry the
+            # witness name (+ a distinguishing letter is not possible without changing the label: names are n1 and 'c<k>')
+            n1, a_, b_ = d['model']['n1'], d['model']['a'], d['model']['b']
+            K = max(a_, b_) + 1
+            x = M.variable(K, 'x')
+            cons = []
+            for k_ in range(K):
+                c = (x <= matrix([10.0*k_ + l_ + 1.0 for l_ in range(K)]))
+                c.name = n1 if k_ == a_ else 'c%d' % k_
+                cons.append(c)
+            p = M.op(-M.sum(x), cons)
+            try:
+                p.tofile(fn); q = M.op(); q.fromfile(fn)
+            except Exception as e:
+                return {'violated': ['constraint %r at position %d with %d rows: round trip raises %s: %s' % (n1, a_, K, type(e).__name__, str(e)[:60])]}
+            want = sorted(10.0*k_ + l_ + 1.0 for k_ in range(K) for l_ in range(K))
+            got = sorted(-float(c._f._constant[i]) for c in q.inequalities() for i in range(len(c)))
+            if len(got) != len(want) or any(abs(g - w) > 1e-4 for g, w in zip(got, want)):
+                return {'violated': ['constraint %r at position %d with %d rows: right-hand sides read back differ from those written' % (n1, a_, K)]}
+            return {'violated': []}
         if d['kind'] == 'width':
             v = float('1.5e%d' % d['model']['e'])
             a = M.variable(1, 'a')
@@ -507,6 +550,19 @@ def main(tier):
             else: violations.append((key, rp, '%s: %s -> %s' % (label, model, rep)))
         else:
             ev.add_obl('unknown'); inconc.append('labels: ' + label)
+    for (nm_, ia_, ib_, txt_) in list(MIXED):
+        verdict, model = mixed_label_obligation(20 if tier == 'quick' else 120)
+        lab_ = 'label expression `%s` of op.tofile differs from the label of the other sections' % txt_
+        if verdict == 'unsat': ev.add_obl('unsat')
+        elif verdict == 'sat':
+            ev.add_obl('sat'); key = 'labels-mixed:' + txt_
+            rp = common.write_replay('C14', key, {'property': 'C14', 'kind': 'labels-mixed', 'label': lab_, 'model': model})
+            rep, why = replay_on_build(rp)
+            if rep is None: herr.append('%s: witness %s %s' % (lab_, model, why))
+            elif key in known: known_hits.append((key, known[key]['what']))
+            else: violations.append((key, rp, '%s: %s -> %s' % (lab_, model, rep)))
+        else:
+            ev.add_obl('unknown'); inconc.append('labels: ' + lab_)
     label, verdict, model = width_obligation()
     if verdict == 'unsat': ev.add_obl('unsat')
     elif verdict == 'sat':
